@@ -12,20 +12,22 @@ from .c01 import make_target
 
 ID = "C10"
 LEAN_MODULES = ["TempestVerif.Props.C10", "TempestVerif.Props.C10Closed", "TempestVerif.Props.C10Round", "TempestVerif.Props.C10Source"]
-RULE = ("(a) paired-shift-runs: paired INSTRUMENTED real runs under one seed with logL and logL + c (c in {+-1, +-37.5, +-1000}) over kernel x "
-        "resampler x clustering x metric mode (+ blobs, + a zero-likelihood half-plane, + a two-mode target on which the clusterer finds "
-        "several modes). The closed-loop theorems (C10_cl_iterate / C10_cl_runLoop / C10_cl_run / C10_cl_posterior) predict, call by call: "
-        "the same random stream consumption, the same trial temperatures with the same ESS / metric, identical arguments of "
-        "volume_variation, trim_weights, Trainer.run, Resampler.run, identical trainer output, proposals, Hastings factors, acceptance "
-        "probabilities, masks, step counts, sigma-derived efficiency, calls, the same number of iterations and guard values, l + c stored, "
-        "logz_t + beta_t c, final + c, and posterior() under all 16 option combinations; compared within 1e-8 relative (a mismatch is "
-        "re-tested with c/2 and 2c to rule out a rounding-induced decision flip). (b) closed-loop-replay: every one of those recorded runs "
-        "(shifted and unshifted) is replayed by the closed-loop Lean model at Float, which must reproduce the whole run from the recorded "
-        "answers of the random / opaque calls: schedule (both metric modes), trimming, indices, masks, NUMBER of accept/reject steps, "
-        "acceptance, efficiency, calls, batches, NUMBER of iterations, final evidence. (c) shifted-trace-replay: the tape-driven pipeline "
-        "model (what Props/C10.lean is about) replays runs with a shifted likelihood. (d) checkpoint-shift: paired runs with save_every; "
-        "every checkpoint file must be the shift of the other. (e) rounding-bounds: the rounded-arithmetic bounds of Props/C10Round.lean "
-        "are evaluated on the recorded acceptance exponents. Non-trivial = every pair (c != 0) / every replayed run with an annealing iteration.")
+RULE = ("(a) paired-shift-runs = THE PROPERTY ORACLE on paired real runs under one seed with logL and logL + c (c in {+-1, +-37.5, +-1000}) over "
+        "kernel x resampler x clustering x metric mode (+ blobs, a zero-likelihood half-plane, a 2.25 % support, a two-mode target): only the "
+        "statement's observables, read through the public API — completion, number of iterations, beta_t, committed particles (u, blobs), the "
+        "ESS sequence, the normalised weights (per iteration and posterior() at beta = 1, linear and log), stored l + c, logz_t + beta_t c, final "
+        "+ c — within 1e-8 relative; a difference is a failing input only if it has no rounding excuse in the internal record (near-tie of a "
+        "decision, volume metric on an ill-conditioned cloud) AND persists at c/2 or 2c. search / replay use this oracle only. "
+        "(a') paired-shift-internals (correspondence only): what the closed-loop theorems predict call by call — random stream consumption, trial "
+        "temperatures and ESS, arguments of volume_variation / trim_weights / Trainer.run / Resampler.run, trainer output, proposals, Hastings "
+        "factors, alphas, masks, counters, guard values, 16 posterior() combinations — rounding-aware (ill-conditioned clouds and exact ties "
+        "are counted as near-ties), persistent at c/2 or 2c. (b) closed-loop-replay: every recorded run (shifted and unshifted) is replayed by "
+        "the closed-loop Lean model at Float, which must reproduce the whole run from the recorded answers of the random / opaque calls: "
+        "schedule (both metric modes), trimming, indices, masks, NUMBER of accept/reject steps, acceptance, efficiency, calls, batches, NUMBER "
+        "of iterations, final evidence. (c) shifted-trace-replay: the tape-driven pipeline model replays runs with a shifted likelihood. "
+        "(d) checkpoint-shift: paired runs with save_every (observable keys = property, other keys = correspondence). (e) rounding-bounds: the "
+        "bound of C10_round_exponent on the doubles of every recorded accept/reject step. An instrumentation failure aborts the suites that need "
+        "the internal record (a', b, e) and nothing else. Non-trivial = every pair (c != 0) / every replayed run with an annealing iteration.")
 MODELLED = ["rounding-induced branch flips are allowed by the statement ('up to floating-point rounding'); a flip is recognised by re-running with c/2 and 2c; "
             "Props/C10Round.lean bounds how far rounding can move an acceptance exponent and an ESS (standard model of binary64, assumption H_round)",
             "closed-loop model: the trainer (clustering / Student-t fit), the proposal generator, volume_variation, the prior draw and the random "
@@ -84,19 +86,56 @@ def _trace(cfg, c, seed, posterior=True):
     return _TRACES[key]
 
 
+EXCUSED = []      # (config, c, seed, what, excuse): property-oracle differences attributed to rounding (reported as near-ties)
+
+
 def shift_problem(cfg, c, seed):
-    return c10cl.pair_problem(_trace(cfg, 0.0, seed), _trace(cfg, c, seed), c)
+    """the PROPERTY oracle on one pair: (message, iteration) or None; a difference with a rounding excuse in the internal record
+    (near-tie of a decision, volume metric on an ill-conditioned cloud) is not a problem — 'up to floating-point rounding'"""
+    a, b = _trace(cfg, 0.0, seed), _trace(cfg, c, seed)
+    p = c10cl.property_problem(a, b, c)
+    if p is None:
+        return None
+    ex = c10cl.rounding_excuse(a, b, p[1], p[2])
+    if ex is not None:
+        EXCUSED.append({"config": cfg, "c": c, "seed": seed, "what": p[0], "excuse": ex})
+        return None
+    return p
 
 
 def shift_violation(cfg, c, seed):
+    """a concrete failing input of the property: the observable difference persists at c/2 or 2c (a rounding-induced decision flip
+    does not: it depends on the last bits of c, not on c)"""
     p = shift_problem(cfg, c, seed)
     if p is None:
         return None
-    # rule out a rounding-induced decision flip: a genuine dependence on c persists at c/2 and 2c
     others = [shift_problem(cfg, c / 2, seed), shift_problem(cfg, 2 * c, seed)]
     if sum(o is not None for o in others) >= 1:
-        return {"what": p, "config": cfg, "c": c, "seed": seed}
+        return {"what": p[0], "config": cfg, "c": c, "seed": seed}
     return None
+
+
+def internal_disagreements(cfg, c, seed):
+    """correspondence only: hard internal differences of the pair that persist (same kind) at c/2 or 2c; soft ones are returned
+    separately (counted as near-ties)"""
+    a = _trace(cfg, 0.0, seed)
+    b = _trace(cfg, c, seed)
+    probs = c10cl.internal_problems(a, b, c)
+    pp = c10cl.property_problem(a, b, c)
+    if pp is not None and c10cl.rounding_excuse(a, b, pp[1], pp[2]) is not None:
+        # the two runs parted at a rounding-decided point: everything downstream differs as a consequence
+        return [], [(k, m) for k, m, _ in probs]
+    hard = [(k, m) for k, m, soft in probs if not soft]
+    soft = [(k, m) for k, m, soft in probs if soft]
+    if not hard:
+        return [], soft
+    if hard[0][0] == "instrumentation":
+        return hard[:1], soft
+    kinds = set()
+    for cc in (c / 2, 2 * c):
+        kinds |= {k for k, _, sf in c10cl.internal_problems(a, _trace(cfg, cc, seed), cc) if not sf}
+    keep = [(k, m) for k, m in hard if k in kinds]
+    return keep, soft + [(k, m) for k, m in hard if k not in kinds]
 
 
 def _tags(c, cfg, t):
@@ -133,23 +172,39 @@ def correspond(tier):
         cfgs = CONFIGS + TIGHT + EXTRA
     else:
         cfgs = [CONFIGS[i] for i in (0, 3, 6, 9, 12)] + TIGHT[:2] + EXTRA
+    ci = Corr("paired-shift-internals", "toleranced, rounding-aware (correspondence only: never a failing input by itself)")
     replay = []
+    n_exc = len(EXCUSED)
     for i, cfg in enumerate(cfgs):
         seed = rng.randrange(2 ** 31)      # one unshifted run per configuration, shared by its shifts
         for cc in (SHIFTS if tier == "thorough" else [SHIFTS[i % 6], SHIFTS[(i + 3) % 6]][: (2 if i % 3 == 0 else 1)]):
             c.case((cfg, cc, seed), True)
+            ci.case((cfg, cc, seed), True)
             a, b = _trace(cfg, 0.0, seed), _trace(cfg, cc, seed)
             _tags(c, cfg, b)
             c.count(f"c={cc}")
             v = shift_violation(cfg, cc, seed)
             if v:
-                c.disagree(input={"config": cfg, "c": cc, "seed": seed}, impl=v["what"],
+                c.disagree(kind="property", input={"config": cfg, "c": cc, "seed": seed}, impl=v["what"],
                            model="C10_cl_run: the run on l + c is the shift of the run on l")
-            elif c10cl.pair_problem(a, b, cc) is not None:
+            elif c10cl.property_problem(a, b, cc) is not None:
                 c.near_ties += 1
+            hard, soft = internal_disagreements(cfg, cc, seed)
+            for kind, msg in hard[:1]:
+                ci.disagree(kind="instrumentation" if kind == "instrumentation" else "internal:" + kind,
+                            input={"config": cfg, "c": cc, "seed": seed}, impl=msg,
+                            model="C10_cl_iterate: every internal call of the shifted run receives what it received in the unshifted run")
+            for kind, _ in soft:
+                ci.near_ties += 1
+                ci.count("rounding-dominated difference: " + kind)
             for t, sh in ((a, 0.0), (b, cc)):
                 if t.error is None:
                     replay.append((t, {"config": cfg, "c": sh, "seed": seed}))
+    for e in EXCUSED[n_exc:]:
+        c.count("observable difference with a rounding excuse")
+        c.sample(e)
+    ci.sample({"kinds": "guard, stream, trial-temperatures, trial-ess, vv-calls, vv-arguments, vv-value, hand-off, trim, trainer-output, "
+                        "indices, steps, proposals, alphas, masks, likelihood, counters, assignments, logz-rw, posterior"})
     c.sample({"config": cfgs[0], "shifts": SHIFTS})
     # (b) closed-loop model replay of every recorded run
     seen = set()
@@ -160,17 +215,25 @@ def correspond(tier):
         seen.add(id(t))
         lines.append(c10cl.model_line(t))
         items.append((t, info))
-    for (t, info), ans in zip(items, drv.batch(lines)):
+    bad_instr = [t for t, _ in items if t.instr_error]
+    if bad_instr:
+        cl.disagree(kind="instrumentation", input="closed-loop-replay", impl=bad_instr[0].instr_error,
+                    model="the run is observable at the modelled points")
+        items, lines = [], []
+    for (t, info), ans in zip(items, drv.batch(lines) if lines else []):
         cl.case((info["config"], info["c"], info["seed"]), len(t.trim) > 0)
         cl.count(f"cl={int(info['config']['clustering'])}/vv={'on' if info['config']['vv'] is not None else 'off'}")
         cl.count("shifted run" if info["c"] != 0.0 else "unshifted run")
-        prob, tie = c10cl.compare_model(t, ans)
+        try:
+            prob, tie = c10cl.compare_model(t, ans)
+        except Exception as e:  # noqa — an incomplete record: this suite's problem only
+            prob, tie = f"the recorded run could not be compared with the model ({type(e).__name__}: {e})", False
         for br in c10cl.model_branches(ans):
             cl.count("branch:" + br)
         if tie:
             cl.near_ties += 1
         elif prob:
-            cl.disagree(input=info, impl=prob, model=ans[:200])
+            cl.disagree(kind="model-vs-code", input=info, impl=prob, model=ans[:200])
         cl.sample({"config": info, "beta": [round(i["beta"], 5) for i in t.iters], "steps": [i["steps"] for i in t.iters]})
     # (c) trace replay of shifted runs through the tape-driven pipeline model
     c2 = Corr("shifted-trace-replay", "toleranced Float")
@@ -207,15 +270,20 @@ def correspond(tier):
     for cfg, cc in ck:
         seed = rng.randrange(2 ** 31)
         c3.case((cfg, cc, seed), True)
-        prob, nfiles = c10cl.checkpoint_problem(cfg, cc, seed)
+        prob, nfiles, is_prop = c10cl.checkpoint_problem(cfg, cc, seed)
         c3.count("checkpoint files compared", nfiles)
         if prob and (c10cl.checkpoint_problem(cfg, cc / 2, seed)[0] or c10cl.checkpoint_problem(cfg, 2 * cc, seed)[0]):
-            c3.disagree(input={"config": cfg, "c": cc, "seed": seed, "checkpoint": True}, impl=prob,
-                        model="C10_cl_checkpoint: the checkpoint of the shifted run is the shifted checkpoint")
+            c3.disagree(kind="property" if is_prop else "internal:checkpoint-key",
+                        input={"config": cfg, "c": cc, "seed": seed, "checkpoint": True} if is_prop else {"config": cfg, "seed": seed},
+                        impl=prob, model="C10_cl_checkpoint: the checkpoint of the shifted run is the shifted checkpoint")
     c3.sample({"configs": [x[0] for x in ck[:2]]})
     # (e) the rounded-arithmetic bound of Props/C10Round.lean on the recorded acceptance exponents
-    c4 = round_suite(tier, [t for t, _ in items])
-    return [c, cl, c2, c3, c4]
+    try:
+        c4 = round_suite(tier, [t for t, _ in items])
+    except Exception as e:  # noqa — needs the internal record
+        c4 = Corr("rounding-bounds", "exact inequality on doubles")
+        c4.disagree(kind="instrumentation", input="rounding-bounds", impl=f"{type(e).__name__}: {e}", model="recorded steps")
+    return [c, ci, cl, c2, c3, c4]
 
 
 # --------------------------------------------------------------------------------------------------------------- rounding
@@ -297,23 +365,26 @@ def _step_pairs(a, b):
 # --------------------------------------------------------------------------------------------------------------- search / replay
 
 def search(tier, hints):
+    """concrete failing inputs of the PROPERTY on the real code: only the statement's observables of a pair are compared
+    (`shift_violation`); internal differences are never failing inputs"""
     rng = common.rng_for("C10.search")
     found = []
     t0 = time.time()
-    # first the inputs on which an obligation broke, then a sweep
     todo = []
     for h in hints:
         i = h.get("input") if isinstance(h.get("input"), dict) else None
         if i and "config" in i and "seed" in i and i.get("c"):
             todo.append((i["config"], i["c"], i["seed"], bool(i.get("checkpoint"))))
+        elif i and "config" in i and "seed" in i:
+            todo += [(i["config"], cc, i["seed"], False) for cc in (37.5, -1000.0)]
     for cfg in TIGHT[:3] + EXTRA + CONFIGS[:: (2 if tier == "quick" else 1)]:
         for cc in (37.5, -1000.0):
             todo.append((cfg, cc, rng.randrange(2 ** 31), False))
     for cfg, cc, seed, ck in todo:
         if ck:
-            p = c10cl.checkpoint_problem(cfg, cc, seed)[0]
-            v = {"what": p, "config": cfg, "c": cc, "seed": seed, "checkpoint": True} if p and (
-                c10cl.checkpoint_problem(cfg, cc / 2, seed)[0] or c10cl.checkpoint_problem(cfg, 2 * cc, seed)[0]) else None
+            p, _, is_prop = c10cl.checkpoint_problem(cfg, cc, seed)
+            v = {"what": p, "config": cfg, "c": cc, "seed": seed, "checkpoint": True} if p and is_prop and (
+                any(x[0] and x[2] for x in (c10cl.checkpoint_problem(cfg, cc / 2, seed), c10cl.checkpoint_problem(cfg, 2 * cc, seed)))) else None
         else:
             v = shift_violation(cfg, cc, seed)
         if v:
@@ -331,7 +402,7 @@ def replay(obj):
         from . import witnesses
         return witnesses.ALL[f["replay"]["witness"]]()
     if f.get("checkpoint"):
-        p = c10cl.checkpoint_problem(f["config"], f["c"], f["seed"])[0]
-        return {"fails": p is not None, "detail": p}
+        p, _, is_prop = c10cl.checkpoint_problem(f["config"], f["c"], f["seed"])
+        return {"fails": p is not None and is_prop, "detail": p}
     v = shift_violation(f["config"], f["c"], f["seed"])
     return {"fails": v is not None, "detail": v}
